@@ -72,6 +72,12 @@ for k in sorted(D):
     prop, what, needs = D[k]
     res = open(os.path.join(d, "result.txt")).read() if os.path.exists(os.path.join(d, "result.txt")) else ""
     props_run = open(os.path.join(d, "props.txt")).read().split() if os.path.exists(os.path.join(d, "props.txt")) else []
+    # a result file may hold a first evaluation and a re-evaluation with strengthened checks: the last one counts,
+    # the first one is reported next to it
+    parts = re.split(r"^# --- re-evaluation.*$", res, flags=re.M)
+    first = dict(re.findall(r"^== (C\d\d) exit=(\d+)", parts[0], re.M)) if len(parts) > 1 else None
+    if len(parts) > 1:
+        res = parts[-1]
     per = dict(re.findall(r"^== (C\d\d) exit=(\d+)", res, re.M))
     evaluated_at = re.findall(r"^# evaluated with (.*)$", res, re.M)
     viol = re.findall(r"^VIOLATION property=(C\d\d) replay=\S*?/(C\d\d_[^\s]+?)\.json", res, re.M)
@@ -92,7 +98,12 @@ for k in sorted(D):
     ob = failed[0][0] if failed else ""
     status = ("caught: " + ", ".join("%s(exit %s)" % (p, per.get(p, "?")) for p in props_run if per.get(p) == "1")) if caught_by else \
              ("not decided (exit 2)" if "2" in per.values() else "MISSED (exit 0)")
+    if first is not None:
+        f1 = sorted(p for p in first if first[p] == "1")
+        status += "; first evaluation: " + (("caught by " + ", ".join(f1)) if f1 else ("not decided (exit 2)" if "2" in first.values() else ("MISSED (exit 0)" if first else "MISSED / not decided")))
+        meta["first_evaluation_exit_codes"] = first
+        json.dump(meta, open(os.path.join(d, "meta.json"), "w"), indent=1)
     rows.append("| %s | %s | %s | %s | %s |" % (k, what, " ".join(props_run), status, ob))
-tbl = "| seed | change | checks run | outcome | first failed obligation |\n|---|---|---|---|---|\n" + "\n".join(rows)
+tbl = "| seed | change | checks run | outcome (exit 1 = VIOLATION reported) | first failed obligation |\n|---|---|---|---|---|\n" + "\n".join(rows)
 open(os.path.join(S, "TABLE.md"), "w").write(tbl + "\n")
 print(tbl)
